@@ -179,6 +179,17 @@ theorem fire_sim (S : SelE) (op : LOp) (orc : List Nat) (st : State) (j : J) (h 
   rw [hE]
   exact ⟨⟨fireTimers_W orc st h.w, h.pinv, h.lso, h.now, h.e14, h.e10, h.socks, hrel, h.pipes⟩, rfl, rfl, rfl, rfl, rfl⟩
 
+def qP (j : J) : J :=
+  match j.pipes.find? (fun (_, q) => q.preWait) with
+    | some (i, _) => j.fail14 s!"pipe {i} reached its socket while ADD_PRE was registered but ADD_PRE was not delivered"
+    | none => j
+
+def qQ (j : J) : J :=
+  match j.pipes.find? (fun (_, q) => q.postWait) with
+    | some (i, _) =>
+      j.fail14 s!"pipe {i} was started by the protocol while ADD_POST was registered but ADD_POST was not delivered"
+    | none => j
+
 def qA (j : J) : J :=
   match j.eps.find? (fun (_, x) => x.dialer && !x.closed &&
         match x.redialSince with | some t0 => decide ((j.now : Int) ≥ t0 + max x.cfgMax 0) | none => false) with
@@ -252,9 +263,32 @@ theorem quiescent_sim (st : State) (j : J) (h : Mid noSel st j) (hf : AllFresh s
       simp only at hp
       rw [h2 e x hm] at hp; cases hp
     · rfl
+  -- between the steps no notification is owed
+  have hqp : qP j = j := by
+    unfold qP
+    split
+    · rename_i i q heq
+      have hm := List.mem_of_find?_eq_some heq
+      have hp := List.find?_some heq
+      rw [h.pipes] at hm
+      rcases List.mem_map.mp hm with ⟨p, _, hpq⟩
+      cases hpq
+      cases hp
+    · rfl
+  have hqq : qQ j = j := by
+    unfold qQ
+    split
+    · rename_i i q heq
+      have hm := List.mem_of_find?_eq_some heq
+      have hp := List.find?_some heq
+      rw [h.pipes] at hm
+      rcases List.mem_map.mp hm with ⟨p, _, hpq⟩
+      cases hpq
+      cases hp
+    · rfl
   have hq : quiescent j = jSettle j := by
-    have : quiescent j = jSettle (qB (qA j)) := rfl
-    rw [this, hqa, hqb]
+    have : quiescent j = jSettle (qB (qA (qQ (qP j)))) := rfl
+    rw [this, hqp, hqq, hqa, hqb]
   have hl : ∀ s, (jSettle j).socks.lookup s = (j.socks.lookup s).map fun x => { x with closedBefore := x.closed } := by
     intro s
     exact Nng.LifeSpec.lookup_mapval j.socks (fun _ x => { x with closedBefore := x.closed }) s
